@@ -32,6 +32,10 @@ def check_create_arcs(chk, rep, repo):
     fn = w.entry
     G = ("self",)
     scans = find_knn_scans(w)
+    if not scans:
+        from ..rules_knn import report_missing_scan
+        if report_missing_scan(rep, w, "KNNSubgraph.create_arcs"):
+            return
     if len(scans) != 1:
         raise AnalysisError(f"KNNSubgraph.create_arcs: expected one insertion scan, found {len(scans)}")
     sc = scans[0]
